@@ -11,6 +11,7 @@ import (
 	"sort"
 	"strings"
 	"sync"
+	"sync/atomic"
 	"testing"
 	"time"
 
@@ -286,8 +287,10 @@ func newObserver(w *world) (*observer, func(), error) {
 		raw.Close()
 		return nil, nil, fmt.Errorf("observer authentication failed")
 	}
-	for i, sig := range []uint32{106, 107} {
-		f, ok := raw.CallWait(1, 1, 0, regPayload(1, sig, uint64(9000+i)), bound)
+	for _, sig := range []uint32{106, 107} {
+		// registration ids are unique per object across connections (the
+		// library's own client draws them at random): one counter for all observers
+		f, ok := raw.CallWait(1, 1, 0, regPayload(1, sig, atomic.AddUint64(&observerIDs, 1)), bound)
 		if !ok || f.Type != netkit.Reply {
 			raw.Close()
 			return nil, nil, fmt.Errorf("observer registerEvent(%d): %v", sig, f)
@@ -295,6 +298,8 @@ func newObserver(w *world) (*observer, func(), error) {
 	}
 	return &observer{raw: raw}, raw.Close, nil
 }
+
+var observerIDs uint64 = 9000
 
 var eventType, _ = ref.ParseSig("(Is)")
 
@@ -776,5 +781,5 @@ func TestConformance(t *testing.T)  { vt.Run(t, prop, "TestConformance", genSeq,
 func TestLinearizable(t *testing.T) { vt.Run(t, prop, "TestLinearizable", genConc, checkConc) }
 
 func TestReplay(t *testing.T) {
-	vt.Replay(t, map[string]func(json.RawMessage) error{"TestConformance": vt.Decode(checkSeq), "TestLinearizable": vt.Decode(checkConc)})
+	vt.Replay(t, map[string]func(json.RawMessage) error{"TestConformance": vt.Decode(checkSeq), "TestLinearizable": vt.Decode(checkConc), "TestEventOrder": vt.Decode(checkOrder)})
 }
